@@ -51,6 +51,19 @@ CHECKS = {
              "(7 thorough) and seeded random texts; held-on-what-was-executed, exhaustive within the stated scope.",
         note="Trusted: the 60-line naive model in harness/src/ops_pos.rs; overflow-checks/debug-assertions build of the repo crates.",
         design="§2 C15"),
+    "C16": dict(
+        technique="differential + round-trip runtime oracle (Python repr / literal_eval, the parser's own Constant::parse), exhaustive small scope; valgrind (and Miri in thorough) over the unchecked fast path",
+        text="Every value is rendered by the escaping helpers in all quote modes; the result must be valid UTF-8, evaluate back to the value under Python and under this "
+             "parser, use Python's quote choice, have the body length the precomputed layout announced, keep `changed()` consistent, and equal Python's repr for bytes "
+             "and for Unicode-version-independent text. Exhaustive for byte strings of length <= 2 and single code points in thorough.",
+        note="Trusted: Python 3.11 repr/literal_eval; version independence decided mechanically (unicodedata.ucd_3_2_0 vs current table).",
+        design="§2 C16"),
+    "C17": dict(
+        technique="differential runtime oracle against Python float()/repr/float.hex/fromhex/% formatting over directed and seeded doubles and an exhaustive small string alphabet",
+        text="to_string is checked for exact round trip (by Python and by parse_str), shortest digit count and Python's shape; parse_str/parse_bytes for equal accept/reject and "
+             "bit-identical results on ASCII input; to_hex/from_hex against float.hex/fromhex and for round trip; format_fixed/exponent/general against '%.*f/e/g' incl. '#', both cases, precisions 0..20.",
+        note="Trusted: CPython's correctly rounded conversions. Digits of to_string may differ from repr when equally short (allowed by the statement).",
+        design="§2 C17"),
 }
 
 PENDING = {}
